@@ -23,7 +23,7 @@ ASSUMPTIONS = [
     "band: rect 1e-6*(1+mag); ellipsoid 2e-6+1e-4*mag",
     "rectangle slack is an objective-space shift, ellipsoid slack a per-facet allowance (as the property states)",
 ]
-N = {"quick": 1200, "thorough": 40000}
+N = {"quick": 1200, "thorough": 24000}
 REQUIRE = {"quick": {"decisive_true": 300, "decisive_false": 300, "ell_events": 300, "rect_events": 500}}
 TIMEOUT = {"quick": 900, "thorough": 3600}
 
